@@ -227,6 +227,7 @@ func (h *HW) Run(cc core.Cfg, sim *simrt.Sim) *core.Outcome {
 			resume++
 		}
 	}
+	defer file.VerifForgetAll() // process-global registries of the plugin package (see overlay)
 	reason := sim.Run(func() {
 		fs := simos.NewFS()
 		fs.MkdirAllDirect("/data/logs")
